@@ -1,7 +1,7 @@
 (** Reach.v — every store reachable through any sequence of commands, under
     any environment oracle (clock, id stream, file system), satisfies the
     invariant bundle.  [Reach] is over logs; the graph is their replay. *)
-From Ergo Require Import Base Text Events Replay Ready Compact Path Cmd Input Graphs TextFacts CompactCore Invariants.
+From Ergo Require Import Base Text Events Replay Ready Compact Path Cmd Input Graphs TextFacts CompactCore Invariants PrunePlan.
 Local Open Scope string_scope.
 Local Open Scope list_scope.
 
@@ -139,9 +139,6 @@ Proof.
 Qed.
 
 (** * The reachable stores *)
-Definition supported (c : cmd) : Prop :=
-  match c with CPrune _ _ | CPlan _ => False | _ => True end.
-
 Definition Good (log : list event) : Prop :=
   exists g, replay_raw log = Ok g /\ Inv g /\ acyclic g.
 
@@ -171,13 +168,13 @@ Proof.
   apply (subgraph_acyclic g); [rewrite Hd; done|done].
 Qed.
 
-Theorem step_good e c log : Good log -> supported c -> Good (exec e log c).1.
+Theorem step_good e c log : Good log -> Good (exec e log c).1.
 Proof.
-  intros (g & Hr & HI & HA) Hsup. unfold exec.
+  intros (g & Hr & HI & HA). unfold exec.
   destruct (run_txn e c log) as [d r] eqn:Hrun. cbn [fst].
   assert (Hgood : Good log) by (exists g; done).
   destruct c as [is_epic title body epic u agent | i u agent | i agent | epic agent | link ids | yes agent | | p];
-    try contradiction; cbn [run_txn] in Hrun; rewrite (replay_of_raw log g Hr) in Hrun.
+    cbn [run_txn] in Hrun; rewrite ?(replay_of_raw log g Hr) in Hrun.
   - (* new *)
     destruct (new_txn e is_epic title body epic u agent (finalize g)) as [[es r']|] eqn:Hn;
       injection Hrun as <- <-; cbn [apply_decision]; [|done].
@@ -204,21 +201,29 @@ Proof.
     destruct (seq_txn link (finalize g) (ed :: eds)) as [es|] eqn:Hs; injection Hrun as <- <-; cbn [apply_decision]; [|done].
     destruct (seq_txn_inv _ _ _ _ HI HA Hs) as (g' & Hr' & HI' & HA').
     exists g'. split; [rewrite (replay_raw_app log es g Hr); done|done].
+  - (* prune *)
+    destruct yes; injection Hrun as <- <-; cbn [apply_decision]; [|rewrite app_nil_r; done].
+    destruct (prune_inv g agent (e_now e) HI HA) as (g' & Hr' & HI' & HA' & _).
+    exists g'. split; [rewrite (replay_raw_app log _ g Hr); done|done].
   - (* compact *)
     injection Hrun as <- <-. cbn [apply_decision].
     destruct (compact_inv g HI HA) as (g' & Hr' & HI' & HA' & _). exists g'. done.
+  - (* plan *)
+    destruct (plan_valid p); cbn [negb] in Hrun; [|injection Hrun as <- <-; done].
+    destruct (plan_txn e p log (finalize g)) as [[es r']|] eqn:Hp; injection Hrun as <- <-; cbn [apply_decision]; [|done].
+    destruct (plan_inv e p log g es r' HI HA Hp) as (eid & tids & edges & new & g' & _ & -> & Hr' & HI' & HA' & _).
+    exists g'. split; [rewrite (replay_raw_app log _ g Hr); done|done].
 Qed.
 
-Definition req_supported (q : request) : Prop :=
-  match normalize q with Some c => supported c | None => True end.
-
+(** Every store reachable from the empty store by ANY requests (every command, every input mode)
+    under ANY environment oracle (clock readings, candidate ids incl. collisions, uuids, file system). *)
 Inductive Reach : list event -> Prop :=
 | reach_init : Reach []
-| reach_step log e q : Reach log -> req_supported q -> Reach (exec_req e log q).1.
+| reach_step log e q : Reach log -> Reach (exec_req e log q).1.
 
 Theorem reach_good log : Reach log -> Good log.
 Proof.
-  induction 1 as [|log e q _ IH Hs]; [apply good_nil|].
-  unfold exec_req, req_supported in *. destruct (normalize q) as [c|]; [|exact IH].
+  induction 1 as [|log e q _ IH]; [apply good_nil|].
+  unfold exec_req in *. destruct (normalize q) as [c|]; [|exact IH].
   apply step_good; done.
 Qed.
